@@ -163,7 +163,8 @@ func (x *e5) dialer(dl *muxDial) {
 	})
 	var w io.Writer = dl.a
 	if dl.header != "" {
-		hc := drpcmigrate.NewHeaderConn(dl.a, dl.header)
+		// the underlying connection offers io.ReaderFrom, as *net.TCPConn does
+		hc := drpcmigrate.NewHeaderConn(rfConn{dl.a}, dl.header)
 		w = hc
 	}
 	data := dl.full
@@ -210,7 +211,16 @@ func (x *e5) dialer(dl *muxDial) {
 				defer wg.Done()
 				var n int
 				var err error
-				x.call(fmt.Sprintf("Write conn%d", dl.id), func() { n, err = w.Write(chunk) })
+				x.call(fmt.Sprintf("Write conn%d", dl.id), func() {
+					if (dl.id+i)%2 == 1 {
+						// some writers go through io.Copy, which prefers a ReadFrom of the destination
+						var n64 int64
+						n64, err = io.Copy(w, struct{ io.Reader }{bytes.NewReader(chunk)}) // no WriterTo short-cut
+						n = int(n64)
+						return
+					}
+					n, err = w.Write(chunk)
+				})
 				if err != nil {
 					dl.writeFailed = true
 					return
@@ -229,6 +239,18 @@ func (x *e5) dialer(dl *muxDial) {
 	x.delay(2)
 	x.call(fmt.Sprintf("Close conn%d", dl.id), func() { dl.a.Close() })
 	dl.closedByClient = true
+}
+
+// rfConn is a connection with the io.ReaderFrom fast path real TCP connections have.
+type rfConn struct{ net.Conn }
+
+func (c rfConn) ReadFrom(r io.Reader) (int64, error) {
+	data, err := io.ReadAll(r)
+	if err != nil {
+		return 0, err
+	}
+	n, err := c.Conn.Write(data)
+	return int64(n), err
 }
 
 func (x *e5) delay(n int) {
